@@ -549,6 +549,43 @@ def correspondence(ck, cases, limit=3):
     return n
 
 
+def gen_relax_chain(rng, n, tot=None):
+    """a relaxation chain: n forward branches, each reaching a fixed run of filler plus the NEXT branch, sized so that a
+    branch fits one byte exactly when the next one does -- the layout settles one link per pass, from the far end back
+    (hundreds of passes of the label-resolution loop for hundreds of links)"""
+    mn = rng.choice(['BR', 'BR', 'BRZ', 'LDAP'])
+    def filler(nbytes):
+        out = []
+        while nbytes > 0:
+            if nbytes >= 4 and rng.random() < 0.5:
+                out.append(('imm', 'LDBC', 65535)); nbytes -= 4
+            elif nbytes >= 2 and rng.random() < 0.5:
+                out.append(('imm', 'LDAC', rng.randrange(16, 256))); nbytes -= 2
+            else:
+                out.append(('opr', rng.choice(['ADD', 'SUB']))); nbytes -= 1
+        return out
+    items = [('ref', 'BR', 'start'), ('label', 'id', 'w1'), ('data', 16383), ('label', 'id', 'start')]
+    # link k: [ref -> L(k+1)] [a bytes] L(k): [b bytes] ... so that the span of ref k = a + b + len(ref k+1) + a' ...
+    # span of a link = 2a + b + len(next link).  2a + b = 13 is the slow case: every span fits one byte (14 or 15), but
+    # a link is measured against label values of the previous pass, so it stays long until all links before it have
+    # shrunk -- one link per pass.  253 is the same at the two-byte/three-byte boundary.
+    tot = tot or rng.choice([13, 13, 13, 13, 12, 14, 253])
+    a = rng.randint(1, 6) if tot < 100 else rng.randint(60, 120)
+    b = tot - 2 * a
+    items.append(('ref', mn, 'L1'))
+    items += filler(a)
+    for k in range(1, n + 1):
+        if k > 1:
+            items.append(('label', 'id', 'L%d' % (k - 1)))
+        items += filler(b)
+        items.append(('ref', mn, 'L%d' % (k + 1)))
+        items += filler(a)
+    items.append(('label', 'id', 'L%d' % n))
+    items.append(('label', 'id', 'L%d' % (n + 1)))
+    items += [('imm', 'LDAC', 0), ('opr', 'SVC')]
+    return items
+
+
 def standard_cases(ck, n_layout, n_boundary, corpus_id):
     """corpus first, then the shipped .S files, then generated layout/boundary programs"""
     import glob
@@ -571,7 +608,17 @@ def standard_cases(ck, n_layout, n_boundary, corpus_id):
     for k in range(n_boundary):
         items = gen_boundary_pair(rng, big=(k % 40 == 0))
         cases.append({'src': to_source(items), 'items': items, 'tag': 'boundary'})
+    cases += relax_chain_cases(rng, n_layout > 1000)
     return cases
+
+
+def relax_chain_cases(rng, thorough):
+    out = []
+    for n, tot in ([(30, None), (130, 13), (290, 13), (420, 13), (300, 253)] if not thorough else
+                   [(10, None), (30, None), (70, 13), (130, None), (200, 13), (257, 13), (258, 13), (290, 13), (330, None), (420, 13), (600, 13), (900, 13), (300, 253), (500, 253)]):
+        items = gen_relax_chain(rng, n, tot)
+        out.append({'src': to_source(items), 'items': items, 'tag': 'relax-chain'})
+    return out
 
 
 def xcmp_listings(ck, workdir, limit=None):
